@@ -480,6 +480,9 @@ class Engine:
             out[a.kwarg.arg] = ANY
         if a.vararg:
             out[a.vararg.arg] = ANY
+        # keyword arguments that travel through **kwargs and that the contract speaks about
+        for nm, ty in (getattr(contract, "extra_params", None) or {}).items():
+            out[nm] = ty
         return out
 
     @staticmethod
